@@ -1,0 +1,17 @@
+//go:build verif
+
+package configuration
+
+import (
+	"github.com/onosproject/onos-config/pkg/southbound/gnmi"
+	"github.com/onosproject/onos-config/pkg/store/topo"
+	configurationstore "github.com/onosproject/onos-config/pkg/store/v3/configuration"
+)
+
+func NewReconcilerForVerif(topo topo.Store, conns gnmi.ConnManager, configurations configurationstore.Store) *Reconciler {
+	return &Reconciler{conns: conns, topo: topo, configurations: configurations}
+}
+func NewWatcherForVerif(configurations configurationstore.Store) *Watcher {
+	return &Watcher{configurations: configurations}
+}
+func NewTopoWatcherForVerif(topo topo.Store) *TopoWatcher { return &TopoWatcher{topo: topo} }
